@@ -340,13 +340,28 @@ Theorem C17_table_hash_injective :
 Proof. exact Htab_inj. Qed.
 Print Assumptions C17_table_hash_injective.
 
+(* The leaf hashes the harness evaluated behave like an ideal leaf hash on every well-formed header
+   ([wf_hdr], checked on every trace): one digest is the hash of one (index, address, amount) only and
+   is never the output of a pair hash - the two extra hypotheses of C17_claim_only_listed_*. *)
+Theorem C17_table_leaf_hash_ideal :
+  forall h : hdr, wf_hdr h = true ->
+  (forall (i : N) (a : addr) (m : Z) (i' : N) (a' : addr) (m' : Z) (c : N),
+     ltab_get (h_ltab h) i a m = Some c -> ltab_get (h_ltab h) i' a' m' = Some c -> (i, a, m) = (i', a', m')) /\
+  (forall (i : N) (a : addr) (m : Z) (c : N) (x y : dg),
+     ltab_get (h_ltab h) i a m = Some c -> At c <> Htab (h_tab h) x y).
+Proof. exact ltab_hits_ideal. Qed.
+Print Assumptions C17_table_leaf_hash_ideal.
+
 (* The trace checker run on the implementation accepts every run of the model: for every header
-   (hash tables, declared trees), initial observation and call list satisfying the boolean input
-   conditions [wf_input] (table outputs pairwise different, declared leaves are not table outputs,
-   roots verified against are declared roots or not hashes, indices/addresses are observed ones,
-   every hash the model needs is in the table) both the diff and the monitor are silent. *)
+   (hash tables, declared trees), initial observation and list of (call, flags read after the call) -
+   the harness may leave flags unread - satisfying the boolean input conditions [wf_input] (table
+   outputs pairwise different, declared leaves and leaf hashes are not table outputs, leaf table
+   injective, first observation without duplicate keys, roots verified against are declared roots or
+   not hashes, indices/addresses/read flags are in the universe, every hash the model needs is in the
+   table) both the diff and the monitor are silent.  [check] itself evaluates all of these conditions:
+   a trace violating one of them is a disagreement and a monitor failure. *)
 Theorem C17_monitor_accepts_model :
-  forall (h : hdr) (o0 : obs) (cs : list (call dg)),
+  forall (h : hdr) (o0 : obs) (cs : list (call dg * list N)),
   wf_input h o0 cs = true -> check (model_trace h o0 cs) = (0%N, 0%N, 0%N).
 Proof. exact check_accepts_model. Qed.
 Print Assumptions C17_monitor_accepts_model.
@@ -404,6 +419,55 @@ Example C17_table_hash_is_hasher_level :
   forall t a b, hash_pair_h (@app dg) (hashfn_tab t) (fun d => [d]) a b = Ok (Htab t a b).
 Proof. reflexivity. Qed.
 
+(* the two extra hypotheses of C17_claim_only_listed_* (injective leaf hash that is never a pair
+   hash) are satisfiable together with the others: free algebra with a leaf-hash constructor *)
+Example C17_end_to_end_hypotheses_satisfiable :
+  (forall a b, fd_eqb a b = true <-> a = b) /\
+  (forall a b c d, FP a b = FP c d -> a = c /\ b = d) /\
+  (forall i a m i' a' m', FL i a m = FL i' a' m' -> (i, a, m) = (i', a', m')) /\
+  (forall i a m x y, FL i a m <> FP x y).
+Proof. exact end_to_end_hypotheses_satisfiable. Qed.
+
+(* ... so only listed triples can be claimed there, for every tree shape *)
+Example C17_end_to_end_instance :
+  forall gtb data (t : tree fd) (s : state fd) i a m p s',
+  leaves t = map (fun x => FL (fst (fst x)) (snd (fst x)) (snd x)) data ->
+  root s = Some (troot (cpair FP gtb) t) ->
+  claim_sorted fd_eqb FP gtb FL s i a m p = Ok s' -> In (i, a, m) data.
+Proof.
+  destruct end_to_end_hypotheses_satisfiable as (H1 & H2 & H3 & H4). intros gtb.
+  exact (claim_only_listed_sorted fd fd_eqb FP gtb FL H1 H2 H3 H4).
+Qed.
+
+(* the exactness theorem instantiated on a concrete unbalanced tree of the free algebra: the leaf
+   At 2 (left-right) is accepted with exactly one (proof, index) *)
+Example C17_exact_instance :
+  let t := Nd (Nd (Lf (At 5%N)) (Lf (At 2%N))) (Lf (At 9%N)) in
+  forall p i, 0 <= i ->
+  (verify_with_index dg_eqb Pr p (troot Pr t) (At 2%N) i = Ok true <-> p = [At 5%N; At 9%N] /\ i = 1).
+Proof.
+  cbv zeta. intros p i Hi.
+  destruct free_algebra_satisfies_hypotheses as (H1 & H2 & _ & _ & H5 & _).
+  set (t := Nd (Nd (Lf (At 5%N)) (Lf (At 2%N))) (Lf (At 9%N))).
+  assert (Hw : Forall free_leaf (leaves t)) by (repeat constructor).
+  assert (Hn : NoDup (leaves t)) by (repeat constructor; cbn; intuition discriminate).
+  assert (Hl : lookup t [false; true] = Some (Lf (At 2%N))) by reflexivity.
+  assert (Hlen : (length [false; true] < 32)%nat) by (cbn; lia).
+  exact (indexed_exact dg dg_eqb Pr H1 H2 free_leaf H5 t [false; true] (At 2%N) p i Hw Hn Hi Hl Hlen).
+Qed.
+
+(* THE DEPTH BOUND OF THE POSITIONAL FORM (documented in merkle.rs: MerkleProofOutOfBounds when the
+   proof length is >= 32): the honest proof of a leaf at depth 32 - a 33-leaf chain - is refused by
+   verify_with_index (it fails), although the sorted form accepts it; C17_complete_indexed therefore
+   carries length path < 32.  The property text ("accepts every leaf ... all trees") does not hold
+   beyond depth 31 for the positional form; this is a limit of the library, recorded in props. *)
+Example C17_depth32_bound :
+  let t := Examples.t33 in let path := Examples.path32 in
+  lookup t path = Some (Lf (At 0%N)) /\ length path = 32%nat /\ index_of path = 4294967295 /\
+  verify_with_index dg_eqb Pr (proof_of Pr t path) (troot Pr t) (At 0%N) (index_of path) = Fail /\
+  verify dg_eqb Pr dg_gtb (proof_of (cpair Pr dg_gtb) t path) (troot (cpair Pr dg_gtb) t) (At 0%N) = true.
+Proof. vm_compute. repeat split. Qed.
+
 (* the monitor rejects each kind of violation on hand-made traces (Run/C17.v, Module Examples) *)
 Example C17_monitor_rejects :
   check Examples.good = (0%N, 0%N, 0%N) /\
@@ -418,5 +482,20 @@ Example C17_monitor_rejects :
   check Examples.good_unread = (0%N, 0%N, 0%N) /\
   snd (fst (check Examples.bad_lapse)) = 3%N /\
   snd (fst (check Examples.bad_root_lapse)) = 2%N /\
-  snd (fst (check Examples.bad_getter_trap)) = 1%N.
+  snd (fst (check Examples.bad_getter_trap)) = 1%N /\
+  (* malformed headers / observations and calls the monitor cannot judge are monitor failures *)
+  snd (fst (check Examples.bad_ltab_collision)) = 1%N /\
+  snd (fst (check Examples.bad_leaf_is_node)) = 1%N /\
+  snd (fst (check Examples.bad_undeclared)) = 1%N /\
+  snd (fst (check Examples.bad_table)) = 1%N /\
+  snd (fst (check Examples.bad_obs0)) = 1%N /\
+  snd (fst (check Examples.bad_leaf_refused)) = 1%N /\
+  snd (fst (check Examples.bad_nonmember)) = 1%N /\
+  (* where the text leaves the outcome open the monitor accepts both (the diff still reports the change) *)
+  snd (fst (check Examples.lib_index_false)) = 0%N /\
+  snd (fst (check Examples.lib_internal_true)) = 0%N /\
+  snd (fst (check Examples.lib_internal_false)) = 0%N /\
+  snd (fst (check (Examples.d32 Fail))) = 0%N /\
+  snd (fst (check (Examples.d32 (Ok (Some true))))) = 0%N /\
+  snd (fst (check (Examples.d32 (Ok (Some false))))) = 1%N.
 Proof. vm_compute. repeat split. Qed.
